@@ -382,10 +382,12 @@ def migration7(tdset):
     # We have a valid summary table.
     source_table_name = m.group(1)
     source_table_ref = table_name_to_ref[source_table_name]
-    groupby_colrefs = [int(x) for x in m.group(2).strip("_").split("_")]
+    # (A summary table with no group-by columns has no column refs in its name at all.)
+    groupby_colrefs = [int(x) for x in m.group(2).strip("_").split("_") if x]
     # Prepare a new-style name for the summary table. Be sure not to conflict with existing tables
     # or with each other (i.e. don't rename multiple tables to the same name).
-    groupby_col_ids = [columns_map_by_ref[c].colId for c in groupby_colrefs]
+    groupby_col_ids = [columns_map_by_ref[c].colId for c in groupby_colrefs
+                       if c in columns_map_by_ref]
     new_name = summary.encode_summary_table_name(source_table_name, groupby_col_ids)
     new_name = identifiers.pick_table_ident(new_name, avoid=table_name_set)
     table_name_set.add(new_name)
